@@ -53,6 +53,7 @@ type Case struct {
 	Sizes     []int  `json:"sizes"`      // exact encoded size of each request message
 	ReplySize int    `json:"reply_size"` // exact encoded size of the reply (0 = tiny)
 	RawPrefix []byte `json:"raw_prefix"` // httpstream-proto only: hand-written length prefix followed by 32 bytes
+	Frag      int    `json:"frag"`       // ws only: each message travels as RFC 6455 fragments of at most Frag bytes (0 = one frame)
 }
 
 var (
@@ -312,7 +313,7 @@ func Check(c Case) ([]evid.Violation, info) {
 			res = drive.Serve(mux, drive.GRPCRequest("/un.C8/Stream", hdr, bytes.NewReader(body.Bytes()), "application/grpc"))
 		}
 	case "ws":
-		wsErr = runWS(mux, msgs)
+		wsErr = runWS(mux, msgs, c.Frag)
 	default:
 		panic("cell " + c.Cell)
 	}
@@ -471,7 +472,29 @@ var (
 	wsCur  atomic.Value
 )
 
-func runWS(mux http.Handler, msgs [][]byte) string {
+// writeFragmented sends one message as a FIN=0 first frame and continuation frames.
+func writeFragmented(conn io.Writer, m []byte, frag int) error {
+	for off := 0; ; off += frag {
+		end := off + frag
+		fin := end >= len(m)
+		if fin {
+			end = len(m)
+		}
+		op := ws.OpContinuation
+		if off == 0 {
+			op = ws.OpText
+		}
+		f := ws.NewFrame(op, fin, append([]byte{}, m[off:end]...))
+		if err := ws.WriteFrame(conn, ws.MaskFrameInPlaceWith(f, ws.NewMask())); err != nil {
+			return err
+		}
+		if fin {
+			return nil
+		}
+	}
+}
+
+func runWS(mux http.Handler, msgs [][]byte, frag int) string {
 	wsOnce.Do(func() {
 		wsSrv = httptest.NewServer(http.HandlerFunc(func(w http.ResponseWriter, r *http.Request) {
 			wsCur.Load().(http.Handler).ServeHTTP(w, r)
@@ -491,7 +514,13 @@ func runWS(mux http.Handler, msgs [][]byte) string {
 		rd = br
 	}
 	for _, m := range msgs {
-		if err := wsutil.WriteClientMessage(conn, ws.OpText, m); err != nil {
+		var err error
+		if frag > 0 && len(m) > frag {
+			err = writeFragmented(conn, m, frag)
+		} else {
+			err = wsutil.WriteClientMessage(conn, ws.OpText, m)
+		}
+		if err != nil {
 			break // the server may already have closed
 		}
 	}
@@ -640,7 +669,10 @@ func record1(c Case, in info) {
 				bc = append(bc, "<L")
 			}
 		}
-		key = fmt.Sprintf("%s|%v|%d|%d|%s|%x", c.Cell, bc, c.L, c.S, strconv.Itoa(c.ReplySize), c.RawPrefix)
+		key = fmt.Sprintf("%s|%v|%d|%d|%s|%x|%d", c.Cell, bc, c.L, c.S, strconv.Itoa(c.ReplySize), c.RawPrefix, c.Frag)
+		if c.Frag > 0 {
+			cl = append(cl, "ws-fragmented")
+		}
 	}
 	evid.Eval(key, cl...)
 }
@@ -660,6 +692,13 @@ func TestPropWS(t *testing.T) {
 		c := genCase(t, []string{"ws"})
 		if c.ReplySize > c.L {
 			c.ReplySize = 0
+		}
+		if rapid.Bool().Draw(t, "fragmented") {
+			// fragments within the limit: the limit is on the message, not on a frame
+			c.Frag = rapid.SampledFrom([]int{1, 7, c.L / 2, c.L - 1, c.L}).Draw(t, "frag")
+			if c.Frag < 1 {
+				c.Frag = 1
+			}
 		}
 		vs, in := Check(c)
 		record1(c, in)
